@@ -1331,10 +1331,15 @@ class MaskSubsetState(SubsetState):
 
         # locate each element of data in the coordinate system of the mask
         vals = [data[c, view].astype(int) for c in self.cids]
-        result = self.mask[tuple(vals)]
 
-        for v, n in zip(vals, data.shape):
-            result &= ((v >= 0) & (v < n))
+        # positions that fall outside the grid on which the mask is defined
+        # are not selected (and must not be used to index the mask)
+        valid = np.ones(np.broadcast(*vals).shape, dtype=bool)
+        for v, n in zip(vals, self.mask.shape):
+            valid &= ((v >= 0) & (v < n))
+
+        result = np.zeros(valid.shape, dtype=bool)
+        result[valid] = self.mask[tuple(np.broadcast_to(v, valid.shape)[valid] for v in vals)]
 
         return result
 
